@@ -262,6 +262,10 @@ static void run_cmd(int ntok, char **tok) {
         else r = zck_init_write(ctxs[c], fds[f]);
         ev_begin(op); ev_int("f", f); ev_int("ret", r); ev_ctx(c);
         if(!strcmp(op, "init_write") && ctxs[c]) ev_int("temp_fd", ctxs[c]->temp_fd);
+        if(!strcmp(op, "init_read") && ctxs[c]) { zckCtx *z = ctxs[c];
+            ev_u64("lead_size", z->lead_size); ev_u64("header_length", z->header_length);
+            ev_u64("preface_size", z->preface_size); ev_u64("index_size", z->index_size);
+            ev_u64("sig_size", z->sig_size); ev_u64("header_size", z->header_size); }
         ev_end();
     }
     else if(!strcmp(op, "read_lead") || !strcmp(op, "validate_lead") || !strcmp(op, "read_header")) {
@@ -309,6 +313,7 @@ static void run_cmd(int ntok, char **tok) {
         zckChunk *ch = nth_chunk(ctxs[c], k);
         if(n < 0 && ch) n = !strcmp(op, "chunk_data") ? (long long)ch->length : (long long)ch->comp_length;
         if(n < 0) n = 0;
+        if(n > (1LL << 27)) n = 1LL << 27;     /* the buffer the caller is willing to supply */
         char *b = malloc(n + 1);
         ssize_t r = !strcmp(op, "chunk_data") ? zck_get_chunk_data(ch, b, n) : zck_get_chunk_comp_data(ch, b, n);
         sink_write(c, b, r);
